@@ -133,6 +133,7 @@ def run_path(world, it, ref, contract):
         locals_env = dict(st.env)
     except _Raise as r:
         exc = r.exc
+        locals_env = dict(st.env)
     except _PathEnd:
         return
     except (_Break, _Continue):
@@ -181,6 +182,15 @@ def run_path(world, it, ref, contract):
             else:
                 key = ("RAISES", f"raises only {sorted(contract.raises)}")
                 it.note_safe(*key, fnode.lineno)
+                if contract.raise_post and getattr(exc, "direct", False):
+                    for clause in contract.raise_post:
+                        try:
+                            g = it.spec_eval(clause, locals_env, ref, old=old)
+                        except Unsupported as e:
+                            if "unknown name" in str(e):
+                                continue
+                            raise
+                        it.oblige("RAISE-AT", f"line-independent: {clause}", g, exc.lineno)
                 for clause in contract.on_raise.get(declared, ()):
                     g = it.spec_eval(clause, penv, ref, old=old)
                     it.oblige("POST-RAISE", f"{declared}: {clause}", g, fnode.lineno)
